@@ -273,14 +273,55 @@ impl Prop for C19 {
                 )
             }
         };
-        app.response_output_policy = ResponseOutputPolicy::File {
+        let file_policy = ResponseOutputPolicy::File {
             filename: out.to_string_lossy().to_string(),
             format,
             file_flush_rate: c.flush,
         };
-        if c.discard {
-            app.response_persistence_policy = ResponsePersistencePolicy::DiscardResponseFromMemory;
+        // how the sink reaches the application: 0/1 = the application's own policy, 2 = handed to
+        // each run in the run configuration (JSON form of the same policy, persistence policy
+        // likewise), 3 = a `combined` policy: a second newline-delimited JSON file in front of the
+        // judged one (in front: the CSV sink may add its mapping errors to the response)
+        let variant = (c.pad_bytes.len() + c.delays_us.len() + c.queries.len() + c.parallelism) % 4;
+        let out2 = dir.file("second.jsonl");
+        let policy = if variant == 3 {
+            ResponseOutputPolicy::Combined {
+                policies: vec![
+                    Box::new(ResponseOutputPolicy::File {
+                        filename: out2.to_string_lossy().to_string(),
+                        format: ResponseOutputFormat::Json { newline_delimited: true },
+                        file_flush_rate: c.flush,
+                    }),
+                    Box::new(file_policy),
+                ],
+            }
+        } else {
+            file_policy
+        };
+        o.label_if(variant == 2, "sink-from-run-configuration");
+        o.label_if(variant == 3, "combined-sinks");
+        let mut run_cfg = serde_json::Map::new();
+        run_cfg.insert("parallelism".into(), json!(c.parallelism));
+        if variant == 2 {
+            match serde_json::to_value(&policy) {
+                Ok(v) => {
+                    run_cfg.insert("response_output_policy".into(), v);
+                }
+                Err(e) => {
+                    o.fail("C19/policy-has-no-json-form", json!({"error": e.to_string()}));
+                    return o;
+                }
+            }
+            if c.discard {
+                run_cfg.insert("response_persistence_policy".into(), json!("discard_response_from_memory"));
+            }
+        } else {
+            app.response_output_policy = policy;
+            if c.discard {
+                app.response_persistence_policy = ResponsePersistencePolicy::DiscardResponseFromMemory;
+            }
         }
+        let run_cfg = Value::Object(run_cfg);
         let eval_col = |name: &str, col: &ColSpec, resp: &Value| -> Option<Value> {
             if name == "id" {
                 Some(resp.get("request").and_then(|r| r.get("qid")).cloned().unwrap_or(Value::Null))
@@ -289,13 +330,46 @@ impl Prop for C19 {
             }
         };
         for run in 0..c.runs {
-            let returned = match run_app(&app, queries.clone(), Some(c.parallelism)) {
+            let returned = match app.run(queries.clone(), Some(&run_cfg)).map_err(|e| e.to_string()) {
                 Ok(r) => r,
                 Err(e) => {
-                    o.fail("C19/run-error-with-sink", json!({"error": e, "run": run}));
+                    o.fail("C19/run-error-with-sink", json!({"error": e, "run": run, "variant": variant}));
                     return o;
                 }
             };
+            // "whether or not responses are also kept in memory": when they are not, only the
+            // error responses of queries refused before the search come back
+            if c.discard && returned.iter().any(|r| !is_error(r)) {
+                o.fail("C19/discard-policy-kept-search-responses-in-memory", json!({"returned": returned.len(), "variant": variant}));
+                return o;
+            }
+            // the second file of a combined policy: one parseable record per response, equal to it
+            if variant == 3 {
+                let text2 = std::fs::read_to_string(&out2).unwrap_or_default();
+                let lines2: Vec<&str> = text2.lines().collect();
+                if lines2.len() != n_resp * (run as usize + 1) || (!text2.is_empty() && !text2.ends_with('\n')) {
+                    o.fail("C19/combined/second-file/record-count", json!({"lines": lines2.len(), "responses": n_resp, "runs_so_far": run + 1}));
+                    return o;
+                }
+                let mut parsed2 = vec![];
+                for (i, l) in lines2.iter().enumerate() {
+                    match serde_json::from_str::<Value>(l) {
+                        Ok(v) => parsed2.push(v),
+                        Err(e) => {
+                            o.fail("C19/combined/second-file/unparseable-record", json!({"line": i, "error": e.to_string(), "length": l.len()}));
+                            return o;
+                        }
+                    }
+                }
+                let mut want2: BTreeMap<String, usize> = BTreeMap::new();
+                for (k, v) in multiset(&reference) {
+                    want2.insert(k, v * (run as usize + 1));
+                }
+                if multiset(&parsed2) != want2 {
+                    o.fail("C19/combined/second-file/records-differ-from-responses", json!({"runs_so_far": run + 1}));
+                    return o;
+                }
+            }
             // no information loss in what is handed back
             if !c.discard {
                 if returned.len() != n_resp {
